@@ -550,13 +550,35 @@ func (f *Formatter) renderOpenTag(n *html.Node) string {
 		buf.WriteString(attr.Key)
 		if attr.Val != "" {
 			buf.WriteString("=\"")
-			buf.WriteString(helpers.FormatAttr(attr.Val))
+			buf.WriteString(escapeAttr(helpers.FormatAttr(attr.Val)))
 			buf.WriteString("\"")
 		}
 	}
 
 	buf.WriteString(">")
 	return buf.String()
+}
+
+// escapeAttr escapes what would change the parsed value of a double-quoted attribute: the
+// quote itself, and an ampersand that could start a character reference. Other ampersands
+// and comparison operators are kept, so that expressions like a && b stay readable.
+func escapeAttr(s string) string {
+	if !strings.ContainsAny(s, "\"&") {
+		return s
+	}
+	var b strings.Builder
+	b.Grow(len(s) + 8)
+	for i := 0; i < len(s); i++ {
+		switch c := s[i]; {
+		case c == '"':
+			b.WriteString("&quot;")
+		case c == '&' && i+1 < len(s) && (s[i+1] == '#' || s[i+1] >= 'a' && s[i+1] <= 'z' || s[i+1] >= 'A' && s[i+1] <= 'Z'):
+			b.WriteString("&amp;")
+		default:
+			b.WriteByte(c)
+		}
+	}
+	return b.String()
 }
 
 // renderCloseTag renders a closing tag.
